@@ -7,16 +7,7 @@ import (
 )
 
 func (ep *episode) prepareEval(jr *jobRun) error { return fmt.Errorf("eval family not built yet") }
-func (ep *episode) runLoad() *Result {
-	ep.res.Verdict, ep.res.Class = "harness-error", "not-built"
-	return ep.res
-}
-func cmdSelftest(args []string) int { return 2 }
-func cmdExpand(args []string) int   { return 2 }
+func cmdSelftest(args []string) int              { return 2 }
+func cmdExpand(args []string) int                { return 2 }
 
 func planC10(tier string, root *simcore.RNG) *plan { return &plan{prop: "C10", level: "exploration"} }
-func planC13(tier string, root *simcore.RNG) *plan { return &plan{prop: "C13", level: "exploration"} }
-func planC14(tier string, root *simcore.RNG) *plan {
-	return &plan{prop: "C14", level: "fault_enumeration"}
-}
-func planC15(tier string, root *simcore.RNG) *plan { return &plan{prop: "C15", level: "exploration"} }
